@@ -1,9 +1,167 @@
 package det
 
-// The C05 configuration monitor ("the limits in force are exactly those of the latest configuration") and the reload
-// bookkeeping live here.
+import (
+	"fmt"
+	"sort"
+	"strconv"
+	"strings"
 
-func (e *Engine) checkLimitsConfig(m *CfgMeta, when string) {}
+	"github.com/apache/yunikorn-core/pkg/common/configs"
+
+	"verifharness/res"
+	"verifharness/world"
+)
+
+// The C05 configuration monitor ("the limits in force are exactly those of the latest configuration"), the C16 reload
+// oracle and the reload bookkeeping live here.
+
+type cfgLimit struct {
+	Res  res.R
+	Apps uint64
+}
+
+type cfgQueue struct {
+	Path    string
+	Conf    *configs.QueueConfig
+	Max     res.R
+	Guar    res.R
+	Users   map[string]cfgLimit
+	Groups  map[string]cfgLimit
+	Leaf    bool
+}
+
+// parseCfgRes interprets the quantities the generator writes (plain integers, "m" suffix for vcore).
+func parseCfgRes(m map[string]string) res.R {
+	if m == nil {
+		return nil
+	}
+	out := res.R{}
+	for k, v := range m {
+		if k == "vcore" {
+			if strings.HasSuffix(v, "m") {
+				n, _ := strconv.ParseInt(strings.TrimSuffix(v, "m"), 10, 64)
+				out[k] = n
+			} else {
+				n, _ := strconv.ParseInt(v, 10, 64)
+				out[k] = n * 1000
+			}
+			continue
+		}
+		n, _ := strconv.ParseInt(v, 10, 64)
+		out[k] = n
+	}
+	return out
+}
+
+func walkCfg(q *configs.QueueConfig, parent string, out map[string]*cfgQueue) {
+	path := strings.ToLower(q.Name)
+	if parent != "" {
+		path = parent + "." + path
+	}
+	cq := &cfgQueue{Path: path, Conf: q, Max: parseCfgRes(q.Resources.Max), Guar: parseCfgRes(q.Resources.Guaranteed), Users: map[string]cfgLimit{}, Groups: map[string]cfgLimit{}, Leaf: len(q.Queues) == 0 && !q.Parent}
+	for _, l := range q.Limits {
+		lim := cfgLimit{Res: parseCfgRes(l.MaxResources), Apps: l.MaxApplications}
+		for _, u := range l.Users {
+			cq.Users[u] = lim
+		}
+		for _, g := range l.Groups {
+			cq.Groups[g] = lim
+		}
+	}
+	out[path] = cq
+	for i := range q.Queues {
+		walkCfg(&q.Queues[i], path, out)
+	}
+}
+
+func cfgQueues(m *CfgMeta) map[string]*cfgQueue {
+	out := map[string]*cfgQueue{}
+	if m == nil || m.Conf == nil || len(m.Conf.Partitions) == 0 {
+		return out
+	}
+	for i := range m.Conf.Partitions[0].Queues {
+		walkCfg(&m.Conf.Partitions[0].Queues[i], "", out)
+	}
+	return out
+}
+
+func sameLimit(qt *world.QT, exp cfgLimit, has bool) bool {
+	if !has {
+		return len(qt.MaxRes) == 0 && qt.MaxApps == 0
+	}
+	if qt.MaxApps != exp.Apps {
+		return false
+	}
+	if len(exp.Res) == 0 {
+		return len(qt.MaxRes) == 0
+	}
+	if len(qt.MaxRes) != len(exp.Res) {
+		return false
+	}
+	for k, v := range exp.Res {
+		if w, ok := qt.MaxRes[k]; !ok || w != v {
+			return false
+		}
+	}
+	return true
+}
+
+// checkLimitsConfig: after every (re)load the limit of every existing tracker node equals the latest configuration:
+// the named limit of that user at that queue, else the wildcard user limit at that queue, else none; for groups the
+// named (or "*") group limit, else none.
+func (e *Engine) checkLimitsConfig(m *CfgMeta, when string) {
+	if e.Cur == nil {
+		return
+	}
+	cq := cfgQueues(m)
+	w := e.Cur
+	ctx := "/" + when
+	if e.Hist.Reloads > 1 {
+		ctx = "/reload-chain"
+	}
+	for _, name := range sortedKeys(w.Users) {
+		tr := w.Users[name]
+		paths := sortedKeys(tr.Queues)
+		for _, path := range paths {
+			qt := tr.Queues[path]
+			e.obs("c05.config_limit_checks", 1)
+			var exp cfgLimit
+			has := false
+			kind := "none"
+			if q := cq[path]; q != nil {
+				if l, ok := q.Users[name]; ok {
+					exp, has, kind = l, true, "named"
+				} else if l, ok := q.Users["*"]; ok {
+					exp, has, kind = l, true, "wildcard"
+				}
+			}
+			if !sameLimit(qt, exp, has) {
+				e.violate("C05", "limit-not-from-latest-config", "/user/expected-"+kind+ctx, fmt.Sprintf("user %s in %s has limit %s / %d applications in force, the latest configuration says %s limit %s / %d", name, path, qt.MaxRes, qt.MaxApps, kind, exp.Res, exp.Apps))
+			}
+		}
+	}
+	for _, name := range sortedKeys(w.Groups) {
+		tr := w.Groups[name]
+		for _, path := range sortedKeys(tr.Queues) {
+			qt := tr.Queues[path]
+			e.obs("c05.config_limit_checks", 1)
+			var exp cfgLimit
+			has := false
+			if q := cq[path]; q != nil {
+				if l, ok := q.Groups[name]; ok {
+					exp, has = l, true
+				}
+			}
+			if !sameLimit(qt, exp, has) {
+				kind := "none"
+				if has {
+					kind = "named"
+				}
+				e.violate("C05", "limit-not-from-latest-config", "/group/expected-"+kind+ctx, fmt.Sprintf("group %s in %s has limit %s / %d applications in force, the latest configuration says %s / %d", name, path, qt.MaxRes, qt.MaxApps, exp.Res, exp.Apps))
+			}
+		}
+	}
+}
 
 func (e *Engine) afterReload(g *Gen, ok bool) {
 	accepted := false
@@ -14,6 +172,9 @@ func (e *Engine) afterReload(g *Gen, ok bool) {
 			}
 		}
 	}
+	if e.lastStep != nil {
+		e.checkC16Reload(e.lastStep, g.pendingMeta, accepted)
+	}
 	if accepted && g.pendingMeta != nil {
 		g.M = g.pendingMeta
 		e.checkLimitsConfig(g.M, "reload")
@@ -21,4 +182,201 @@ func (e *Engine) afterReload(g *Gen, ok bool) {
 		e.Hist.ReloadsRejected++
 	}
 	g.pendingMeta = nil
+}
+
+// fullView: everything observable that a rejected reload must leave unchanged.
+func fullView(w *world.World) string {
+	var b strings.Builder
+	b.WriteString(ledger(w))
+	for _, p := range sortedKeys(w.Queues) {
+		q := w.Queues[p]
+		props := make([]string, 0, len(q.Props))
+		for k, v := range q.Props {
+			props = append(props, k+"="+v)
+		}
+		sort.Strings(props)
+		fmt.Fprintf(&b, "QC %s max=%s guar=%s maxapps=%d leaf=%v managed=%v props=%v sort=%s prio=%v fence=%v/%v offset=%d\n", p, q.Max, q.Guaranteed, q.MaxApps, q.Leaf, q.Managed, props, q.SortPolicy, q.PrioSort, q.PreemptFence, q.PrioFence, q.PrioOffset)
+	}
+	for _, u := range sortedKeys(w.Users) {
+		t := w.Users[u]
+		for _, p := range sortedKeys(t.Queues) {
+			fmt.Fprintf(&b, "UL %s %s max=%s apps=%d\n", u, p, t.Queues[p].MaxRes, t.Queues[p].MaxApps)
+		}
+	}
+	for _, u := range sortedKeys(w.Groups) {
+		t := w.Groups[u]
+		for _, p := range sortedKeys(t.Queues) {
+			fmt.Fprintf(&b, "GL %s %s max=%s apps=%d\n", u, p, t.Queues[p].MaxRes, t.Queues[p].MaxApps)
+		}
+	}
+	fmt.Fprintf(&b, "RULES %v SORT %s\n", w.Rules, w.NodeSort)
+	return b.String()
+}
+
+func sameResKeep(a, b res.R) bool {
+	if len(a) != len(b) {
+		return false
+	}
+	for k, v := range a {
+		if w, ok := b[k]; !ok || w != v {
+			return false
+		}
+	}
+	return true
+}
+
+// checkC16Reload judges one reload step.
+func (e *Engine) checkC16Reload(st *Step, m *CfgMeta, accepted bool) {
+	pre, post := st.Pre, st.Post
+	if !accepted {
+		e.obs("c16.reloads_rejected", 1)
+		a, b := fullView(pre), fullView(post)
+		if a != b {
+			e.violate("C16", "rejected-reload-changed-state", "", "a rejected reload changed observable state:\n"+diffLines(a, b))
+		}
+		return
+	}
+	e.obs("c16.reloads_accepted", 1)
+	// running state is preserved
+	for id, pa := range pre.Apps {
+		a := post.Apps[id]
+		if a == nil {
+			e.violate("C16", "reload-lost-application", "", fmt.Sprintf("application %s (%s) disappeared in an accepted reload", id, pa.State))
+			continue
+		}
+		if a.State != pa.State || a.Queue != pa.Queue || !res.Equal(a.Allocated, pa.Allocated) || !res.Equal(a.Pending, pa.Pending) || !res.Equal(a.PHAlloc, pa.PHAlloc) ||
+			strings.Join(sortedKeys(a.Allocs), ",") != strings.Join(sortedKeys(pa.Allocs), ",") || strings.Join(sortedKeys(a.Asks), ",") != strings.Join(sortedKeys(pa.Asks), ",") || len(a.Resvs) != len(pa.Resvs) {
+			e.violate("C16", "reload-changed-application", "", fmt.Sprintf("application %s changed in an accepted reload: state %s->%s queue %s->%s allocated %s->%s pending %s->%s", id, pa.State, a.State, pa.Queue, a.Queue, pa.Allocated, a.Allocated, pa.Pending, a.Pending))
+		}
+	}
+	busy := false
+	for path, pq := range pre.Queues {
+		q := post.Queues[path]
+		if q == nil {
+			e.violate("C16", "reload-removed-queue", "", fmt.Sprintf("queue %s disappeared in the reload itself (queues are only removed by the cleaner once empty)", path))
+			continue
+		}
+		if !res.Equal(q.Allocated, pq.Allocated) || !res.Equal(q.Pending, pq.Pending) {
+			e.violate("C16", "reload-changed-queue-totals", "", fmt.Sprintf("queue %s allocated %s->%s pending %s->%s in an accepted reload", path, pq.Allocated, q.Allocated, pq.Pending, q.Pending))
+		}
+		if !pq.Allocated.IsZero() || !pq.Pending.IsZero() {
+			busy = true
+		}
+	}
+	for id, pn := range pre.Nodes {
+		n := post.Nodes[id]
+		if n == nil || !res.Equal(n.Allocated, pn.Allocated) || len(n.Allocs) != len(pn.Allocs) || len(n.Resvs) != len(pn.Resvs) {
+			e.violate("C16", "reload-changed-node", "", fmt.Sprintf("node %s changed in an accepted reload", id))
+		}
+	}
+	if busy {
+		e.obs("c16.reloads_with_running_state", 1)
+	}
+	// the new configuration is applied to every queue it defines
+	cq := cfgQueues(m)
+	for path, c := range cq {
+		q := post.Queues[path]
+		if q == nil {
+			e.violate("C16", "configured-queue-missing", "", fmt.Sprintf("queue %s is defined by the accepted configuration but does not exist", path))
+			continue
+		}
+		e.obs("c16.queue_settings_checked", 1)
+		if path != "root" {
+			// a maximum / guaranteed without any positive quantity is documented as "cannot set zero resources": it is not set
+			if !anyPositive(c.Max) {
+				c.Max = nil
+			}
+			if !anyPositive(c.Guar) {
+				c.Guar = nil
+			}
+			if !sameResKeep(c.Max, q.Max) && !(len(c.Max) == 0 && len(q.Max) == 0) {
+				e.violate("C16", "queue-max-not-applied", "", fmt.Sprintf("queue %s max is %s, the accepted configuration says %s", path, q.Max, c.Max))
+			}
+			if !res.Equal(c.Guar, q.Guaranteed) {
+				e.violate("C16", "queue-guaranteed-not-applied", "", fmt.Sprintf("queue %s guaranteed is %s, the accepted configuration says %s", path, q.Guaranteed, c.Guar))
+			}
+		}
+		if q.MaxApps != c.Conf.MaxApplications {
+			who := "/non-root"
+			if path == "root" {
+				who = "/root"
+			}
+			e.violate("C16", "queue-maxapps-not-applied", who, fmt.Sprintf("queue %s max applications is %d, the accepted configuration says %d", path, q.MaxApps, c.Conf.MaxApplications))
+		}
+		if q.State != "Active" {
+			e.violate("C16", "configured-queue-not-active", "/"+q.State, fmt.Sprintf("queue %s is defined by the accepted configuration but is %s", path, q.State))
+		}
+		if !q.Managed {
+			if pq := pre.Queues[path]; pq == nil || pq.Managed {
+				e.violate("C16", "configured-queue-not-managed", "", fmt.Sprintf("queue %s is defined by the accepted configuration but is not a managed queue", path))
+			}
+		}
+		// own properties override
+		for k, v := range c.Conf.Properties {
+			if q.Props[k] != v {
+				e.violate("C16", "queue-property-not-applied", "/"+k, fmt.Sprintf("queue %s property %s is %q, the accepted configuration says %q", path, k, q.Props[k], v))
+			}
+		}
+	}
+	// managed queues missing from the new configuration are draining
+	for path, q := range post.Queues {
+		if _, ok := cq[path]; ok || !q.Managed {
+			continue
+		}
+		e.obs("c16.queues_dropped_from_config", 1)
+		if q.State != "Draining" {
+			e.violate("C16", "dropped-queue-not-draining", "/"+q.State, fmt.Sprintf("managed queue %s is not in the accepted configuration but is %s", path, q.State))
+		}
+	}
+}
+
+// checkC16Step: the rules that are not about the reload step itself.
+func (e *Engine) checkC16Step(st *Step) {
+	pre, post := st.Pre, st.Post
+	if st.Op.Kind == OpAddApp {
+		if a := post.Apps[st.Op.App]; a != nil && pre.Apps[st.Op.App] == nil {
+			if pq := pre.Queues[a.Queue]; pq != nil && pq.State == "Draining" {
+				e.violate("C16", "draining-queue-accepted-application", "", fmt.Sprintf("application %s was accepted into queue %s which was draining", st.Op.App, a.Queue))
+			}
+			if pq := pre.Queues[a.Queue]; pq != nil && pq.State == "Draining" {
+				e.obs("c16.apps_to_draining_queue", 1)
+			}
+		} else if pq := pre.Queues[strings.ToLower(st.Op.Queue)]; pq != nil && pq.State == "Draining" {
+			e.obs("c16.apps_to_draining_queue", 1)
+		}
+	}
+	// a queue only disappears when it was empty
+	for path, pq := range pre.Queues {
+		if _, ok := post.Queues[path]; ok {
+			continue
+		}
+		e.obs("c16.queues_removed", 1)
+		if len(pq.Apps) > 0 {
+			e.violate("C16", "non-empty-queue-removed", "/"+st.Op.Kind, fmt.Sprintf("queue %s was removed in step %s while it had applications %v", path, st.Op.Kind, pq.Apps))
+		}
+		for _, c := range pq.Children {
+			if _, still := post.Queues[c]; still {
+				e.violate("C16", "queue-removed-before-children", "/"+st.Op.Kind, fmt.Sprintf("queue %s was removed while its child %s still exists", path, c))
+			}
+		}
+	}
+	// existing applications of a draining queue keep running: a draining leaf with pending asks is still scheduled is
+	// covered by the normal scheduling oracles; here: draining queues never turn Active without a reload
+	if st.Op.Kind != OpReload {
+		for path, q := range post.Queues {
+			if pq := pre.Queues[path]; pq != nil && pq.State == "Draining" && q.State == "Active" {
+				e.violate("C16", "draining-queue-reactivated-without-reload", "/"+st.Op.Kind, fmt.Sprintf("queue %s went from Draining to Active in step %s", path, st.Op.Kind))
+			}
+		}
+	}
+}
+
+
+func anyPositive(r res.R) bool {
+	for _, v := range r {
+		if v > 0 {
+			return true
+		}
+	}
+	return false
 }
